@@ -30,6 +30,8 @@ partial def parseNode : List String → Option ((Bytes × Entry) × List String)
   | "FI" :: n :: rest => (bytesOfHexStr n).map fun n => ((n, .fifo), rest)
   | "SO" :: n :: rest => (bytesOfHexStr n).map fun n => ((n, .socket), rest)
   | "XD" :: n :: rest => (bytesOfHexStr n).map fun n => ((n, .lockedDir), rest)
+  | "LL" :: n :: rest => (bytesOfHexStr n).map fun n => ((n, .dangling), rest)   -- a link to itself: stat fails (ELOOP)
+  | "LN" :: n :: rest => (bytesOfHexStr n).map fun n => ((n, .dangling), rest)   -- a link through a regular file (ENOTDIR)
   | "XL" :: n :: rest => (bytesOfHexStr n).map fun n => ((n, .lockedDir), rest)
   | _ => none
 
@@ -83,6 +85,13 @@ def specArg (c : Case) (arg : Bytes) : Option (List (Bytes × Bytes)) :=
       | _ => none
     else none
   | some .linkDir => if c.recursive then some [] else none
+  | none =>
+    -- "." is the working directory itself: its files, depth first and sorted, under their plain relative names
+    if arg = [46] ∧ c.recursive then
+      match sortTree (.dir c.cwd) with
+      | .dir sorted => some (filesOfList arg sorted)
+      | _ => none
+    else none
   | _ => none
 
 def heightOk (c : Case) : Bool := c.cwd.all fun e => height e.2 ≤ Gen.cliMaxDepth + 1
